@@ -1,6 +1,8 @@
 """C41: fetch_table with a query returns exactly the matching rows (E2-enum + naive filter)."""
 import sys
+import os
 import common, enumrun, docfix as F
+QUICK = os.environ.get("VERIF_TIER", "quick") != "thorough"
 
 CELLS_A = ["x", "y", None, "", ["L", "x"], 5]
 CELLS_B = [1, 2, None, "alt", 1.5]
@@ -28,9 +30,17 @@ def _in(v, values):
   return False
 
 
-def judge(a, b, qa, qb, formulas, private):
+HIST = [None, [["RemoveRecord", "T", 2]], [["RemoveRecord", "T", 3]], [["BulkRemoveRecord", "T", [1, 3]]],
+        [["RemoveRecord", "T", 3], ["AddRecord", "T", None, {"A": "x"}]], [["RemoveRecord", "T", 2], ["AddRecord", "T", 2, {"A": "y"}]]]
+QID = [None, [1, 2, 3, 4], [3], [2, 3], [0, 7], [3, 3, 1], [2]]
+
+
+def judge(a, b, qa, qb, formulas, private, hist=None, qid=None):
   d = fixture(a, b)
+  for ua in (hist or []):
+    d.apply(list(ua))
   query = {}
+  if qid is not None: query["id"] = list(qid)
   if qa is not None: query["A"] = [tuple(x[1:]) if isinstance(x, list) and x and x[0] == "L" else x for x in qa]
   if qb is not None: query["B"] = list(qb)
   full = d.e.fetch_table("T", formulas=True, private=True)
@@ -42,7 +52,7 @@ def judge(a, b, qa, qb, formulas, private):
   for i, r in enumerate(full.row_ids):
     ok = True
     for c, values in query.items():
-      cell = full.columns[c][i]
+      cell = r if c == "id" else full.columns[c][i]
       if not any(_same(cell, q) for q in values):
         ok = False
     if ok:
@@ -67,33 +77,48 @@ def _same(cell, q):
 
 
 def make_body(shard):
-  formulas, private = shard
+  formulas, private, part = shard
 
   def body(h):
-    a = [h.choice("a%d" % i, CELLS_A) for i in range(3)]
-    b = [h.choice("b%d" % i, CELLS_B) for i in range(2)] + [1]
-    qa = h.choice("qa", QA); qb = h.choice("qb", QB)
-    msg = judge(a, b, qa, qb, formulas, private)
-    w = {"a": a, "b": b, "qa": qa, "qb": qb, "formulas": formulas, "private": private}
-    return {"nontrivial": qa is not None or qb is not None, "violations": ([{"msg": msg, "witness": w}] if msg else []), "sample": w}
+    hist = qid = None
+    if part == "id":
+      # queries on the row id after removals (removed rows keep their slots in the columns) and re-adds
+      hist = h.choice("hist", HIST)
+      qid = h.choice("qid", QID[1:])
+      qa = h.choice("qa", [None, ["x"], [None, ""]])
+      qb = h.choice("qb", [None, [1], [0]])
+      a = [h.choice("a0", CELLS_A[:3]), "x", "y"]
+      b = [1, 2, 1]
+    else:
+      qa = QA[part]
+      qb = h.choice("qb", QB)
+      a = ([h.choice("a%d" % i, CELLS_A) for i in range(2)] if qa is not None else ["x", "y"]) + ["x"]
+      b = ([h.choice("b%d" % i, CELLS_B) for i in range(1 if QUICK else 2)] + ([2] if QUICK else []) if qb is not None else [1, 2]) + [1]
+    msg = judge(a, b, qa, qb, formulas, private, hist, qid)
+    w = {"a": a, "b": b, "qa": qa, "qb": qb, "formulas": formulas, "private": private, "hist": hist, "qid": qid}
+    return {"nontrivial": qa is not None or qb is not None or qid is not None, "violations": ([{"msg": msg, "witness": w}] if msg else []), "sample": w}
   return body
 
 
 def SHARDS(tier):
-  return [((f, p), 100.0 if tier == "quick" else 600.0) for f in (True, False) for p in (False, True)]
+  parts = list(range(len(QA))) + ["id"]
+  flags = [(True, False), (False, True)] if tier == "quick" else [(f, p) for f in (True, False) for p in (False, True)]
+  return [((f, p, part), 100.0 if tier == "quick" else 600.0) for f, p in flags for part in parts]
 
 
 def replay(w):
-  m = judge(w["a"], w["b"], w["qa"], w["qb"], w["formulas"], w["private"])
+  m = judge(w["a"], w["b"], w["qa"], w["qb"], w["formulas"], w["private"], w.get("hist"), w.get("qid"))
   return [m] if m else []
 
 
 META = {
   "files": ["sandbox/grist/engine.py"],
-  "oracle": "rows == naive filter (cell == one of the requested values of every queried column, Python equality) in row id "
+  "oracle": "rows == naive filter (cell, or the row id for an 'id' query, == one of the requested values of every queried column, Python equality) in row id "
             "order; columns per formulas flag; cell values equal the unfiltered fetch",
   "rule": "one evaluation = one (cell contents of two columns, query dict, flags) cube; non-trivial = a query was given",
-  "bounds": {"cells A (Any)": CELLS_A, "cells B (Int)": CELLS_B, "query A": QA, "query B": QB, "rows": 3},
+  "bounds": {"cells A (Any)": CELLS_A, "cells B (Int)": CELLS_B, "query A": QA, "query B": QB, "rows": 3,
+             "query id": QID[1:], "history before an id query (removals, re-adds)": HIST,
+             "flags": "quick: (formulas, not private), (no formulas, private); thorough: all four"},
 }
 
 
